@@ -74,12 +74,20 @@ def _process_many(*args, connectable, zip, combine):
             else:
                 observer.on_next(x)
 
+        is_done = [False] * n
+
+        def done(i):
+            # the stream completes when all branches have completed
+            is_done[i] = True
+            if all(is_done):
+                observer.on_completed()
+
         subscriptions = [None] * n
         for i in range(n):
             subscriptions[i] = sources[i].subscribe_(
                 on_next=functools.partial(on_next, i),
                 on_error=observer.on_error,
-                on_completed=observer.on_completed,
+                on_completed=functools.partial(done, i),
                 scheduler=scheduler,
             )
         subscriptions.append(connectable.connect(scheduler=scheduler))
